@@ -40,6 +40,9 @@ func (c *momentumPool) AddMomentumTransaction(insertLocker sync.Locker, transact
 	}
 
 	store := c.getFrontierStore()
+	if store.Identifier() != momentum.Identifier() {
+		return errors.Errorf("can't insert momentum %v. previous doesn't match with current frontier %v", momentum.Identifier(), store.Identifier())
+	}
 	detailed, err := store.PrefetchMomentum(momentum)
 	if err != nil {
 		return err
